@@ -230,8 +230,13 @@ struct Dumper {
       if (auto *F = CE->getDirectCallee()) {
         o["callee"] = fid(F);
         o["callee_name"] = F->getQualifiedNameAsString();
-        if (auto *M = dyn_cast<CXXMethodDecl>(F))
-          o["virtual"] = M->isVirtual();
+        if (auto *M = dyn_cast<CXXMethodDecl>(F)) {
+          // a call through a qualified name (base::m(..)) is bound statically: it is not dispatched
+          bool qualified = false;
+          if (auto *ME = dyn_cast<MemberExpr>(CE->getCallee()->IgnoreParenImpCasts()))
+            qualified = ME->hasQualifier();
+          o["virtual"] = M->isVirtual() && !qualified;
+        }
       }
       if (auto *OC = dyn_cast<CXXOperatorCallExpr>(S))
         o["op"] = getOperatorSpelling(OC->getOperator());
